@@ -102,7 +102,7 @@ func FlowStatsRec(rot int, match *wire.N, instrs ...*wire.N) *wire.N {
 	return n
 }
 
-func statsRec(kind string, rot int) *wire.N {
+func StatsRec(kind string, rot int) *wire.N {
 	n := wire.New(kind)
 	switch kind {
 	case "desc_stats":
@@ -205,7 +205,7 @@ func Switch(thorough bool, expired func() bool, level func(name string, complete
 			}
 			var recs []*wire.N
 			for i := 0; i < cnt; i++ {
-				recs = append(recs, statsRec(t.kind, i))
+				recs = append(recs, StatsRec(t.kind, i))
 			}
 			yield(MultipartReply(t.typ, recs...))
 		}
